@@ -59,6 +59,13 @@ class S:
 
 def _arg_class(a):
     """Classify an ATen schema argument -> (class, is_tensor, is_optional)."""
+    c, is_t, opt = _arg_class0(a)
+    if c == "ints" and getattr(a, "N", None) != 1:
+        c = "ints_unsized"     # `int[] dim` is a genuine list; `int[1] dim` also accepts a bare int
+    return c, is_t, opt
+
+
+def _arg_class0(a):
     t = str(a.real_type)
     opt = t.startswith("Optional[")
     core = t[9:-1] if opt else t
@@ -77,9 +84,9 @@ def _arg_class(a):
 
 _ATTR_OK = {
     "int": {"INT", "FLOAT"}, "dtype": {"INT"}, "float": {"FLOAT"}, "bool": {"INT"}, "number": {"FLOAT", "INT"},
-    "str": {"STRING"}, "ints": {"INTS"}, "floats": {"FLOATS"}, "bools": {"INTS"}, "numbers": {"FLOATS", "INTS"},
+    "str": {"STRING"}, "ints": {"INTS"}, "ints_unsized": {"INTS"}, "floats": {"FLOATS"}, "bools": {"INTS"}, "numbers": {"FLOATS", "INTS"},
 }
-_INPUT_OK = {"int", "float", "bool", "number", "ints", "floats", "bools", "numbers"}
+_INPUT_OK = {"int", "float", "bool", "number", "ints", "ints_unsized", "floats", "bools", "numbers"}
 
 
 def _metas():
@@ -147,7 +154,7 @@ def _ann_kinds(ann, depth=0):
 _TRACED_OK = {
     "tensor": {"tensor"}, "tensorlist": {"tensorlist", "tensor"},
     "int": {"int", "float", "tensor"}, "dtype": {"int"}, "float": {"float", "tensor"}, "bool": {"bool", "int", "tensor"},
-    "number": {"float", "int", "tensor"}, "str": {"str"}, "ints": {"ints", "int", "tensor", "floats", "tensorlist"},
+    "number": {"float", "int", "tensor"}, "str": {"str"}, "ints": {"ints", "int", "tensor", "floats", "tensorlist"}, "ints_unsized": {"ints", "tensor", "floats", "tensorlist"},
     "floats": {"floats", "tensor", "tensorlist"}, "bools": {"bools", "ints", "tensor"}, "numbers": {"floats", "ints", "tensor"},
 }
 
@@ -218,6 +225,7 @@ def check_pair(meta, hit, v):
         has_varkw = any(p.kind == p.VAR_KEYWORD for p in pyparams.values())
         has_varpos = any(p.kind == p.VAR_POSITIONAL for p in pyparams.values())
     args = list(schema.arguments)
+    fn_param_names = set(order) if scripted else set(pyparams)
     sample = {"qn": qn, "function": fn.name, "scripted": scripted, "schema": str(schema)[:200], "landed": {}}
 
     def variant(label, include):
@@ -287,6 +295,9 @@ def check_pair(meta, hit, v):
             p = params.get(pname)
             if label == "all":
                 sample["landed"][aname] = pname
+            if pname != aname and aname in fn_param_names and not a.kwarg_only:
+                v(f"misordered;{qn};{aname}", f"{qn}: positional schema argument {aname!r} is bound to parameter {pname!r} of {fn.name}, "
+                  f"which also has a parameter named {aname!r} (parameters in another order than the schema)")
             if aname in ALLOWED_DROP:
                 continue
             if not scripted:
